@@ -1,5 +1,6 @@
 //! ccmon: runs generated programs against the real rust-cc while the oracles watch (DESIGN.md section 2).
 mod directed;
+mod evolve;
 mod exhaust;
 mod gen;
 mod interp;
